@@ -94,7 +94,7 @@ Definition check_prog (sufs : list toks) (i : N) (c : bytes * string * string) :
       match o with
       | EmptyString => [(6%N, i, 1%N)]
       | String b o1 =>
-          (if wf ts then (if accepted b then [] else [(1%N, i, 0%N)])
+          (if wf ts then (if obs_ok true b then [] else [(1%N, i, 0%N)])
            else if q_after_paren ts then [(101%N, i, 0%N)] else [(0%N, i, 0%N)]) ++
           let '(r1, o2) := variants (fun k => remove_nth k ts) 2%N 3%N i 1%N 0 n o1 in
           let '(r2, o3) := variants (fun k => dup_nth k ts) 2%N 3%N i (1 + N.of_nat n)%N 0 n o2 in
